@@ -30,6 +30,6 @@ META = {
 }
 
 HOOK_COMMITS = [
-    "7feaa9a verif hook: yield points between the atomic steps of SpinLock.TryLock/Unlock (build tag verif; no-op otherwise)",
-    "5911669 verif hook: VerifLockHeld probes whether SpinLock's mutex is held (yield points inside it are not scheduling points)",
+    "589aecf verif hook: yield points between the atomic steps of SpinLock.TryLock/Unlock (build tag verif; no-op otherwise)",
+    "027d6bd verif hook: VerifLockHeld probes whether SpinLock's mutex is held (yield points inside it are not scheduling points)",
 ]
